@@ -40,7 +40,7 @@ K_PAIRS = 1024
 def units(tier):
     t = 1500 if tier == "thorough" else 600
     return [{"name": n, "timeout": t} for n in
-            ("categorical", "bernoulli", "multicategorical", "normal", "squashednormal", "mvn", "squashedmvn")]
+            ("categorical", "bernoulli", "multicat-flat", "multicat-seq", "normal", "squashednormal", "mvn", "squashedmvn")]
 
 
 # --------------------------------------------------------------------------------------
@@ -111,11 +111,11 @@ def judge_finite(ctx, cls, desc, p_ref, lp, pr, ent, mode_idx, smp_idx, ss_idx, 
     ctx.monitor("mode_checked")
     if mode_idx < 0:
         if wrap_info is not None and _is_int8_wrap(wrap_info[2], wrap_info[0]):
-            bad("mode-int8-wraps-above-128-classes", {"classes": wrap_info[0], "mode": wrap_info[2]})
+            bad("mode-int8-wraps-above-128-classes", {"classes": wrap_info[0], "mode_value": wrap_info[2]})
         else:
-            bad("mode-outside-support", {"mode": mode_raw})
+            bad("mode-outside-support", {"mode_value": mode_raw})
     elif not p_ref[mode_idx] >= np.max(p_ref) * (1 - 1e-5) - 1e-12:
-        bad("mode-not-most-probable", {"mode": mode_raw, "p_mode": p_ref[mode_idx], "p_max": float(np.max(p_ref))})
+        bad("mode-not-most-probable", {"mode_value": mode_raw, "p_mode": p_ref[mode_idx], "p_max": float(np.max(p_ref))})
     # samples in the support, never of probability zero, and distributed as p_ref
     for name, idx in (("sample", smp_idx), ("sample_and_log_prob", ss_idx)):
         idx = np.asarray(idx)
@@ -459,7 +459,7 @@ MC_DIMS = [(2, 3), (3, 3, 2), (5,), (4, 1, 6), (2, 2, 2, 2), (7, 11)]
 MC_FORMS = ["flat-logits", "flat-probs", "seq-logits", "seq-probs", "seq-logits+dims"]
 
 
-def u_multicategorical(ctx):
+def u_multicategorical(ctx, which):
     import equinox as eqx
     import jax
     import jax.numpy as jnp
@@ -543,22 +543,44 @@ def u_multicategorical(ctx):
         if not abs(float(o["ent"]) - he) <= 1e-5 * k + 1e-5 * abs(he):
             ctx.violation("multicategorical-entropy-not-sum-of-components", {"case": desc, "got": float(o["ent"]), "want": he})
 
+    def support_of(dims):
+        return np.array(list(itertools.product(*[range(n) for n in dims])), np.int32)
+
+    def run_batched(form, dims, s, P, key):
+        """jit(vmap(...)); the flat form is also run under vmap alone when jit cannot build it, so that
+        a construction defect under jit does not hide what the splitting itself does."""
+        one, _ = make(form, dims, s)
+        keys = jr.split(key, len(P))
+        try:
+            return jax.tree.map(np.asarray, eqx.filter_jit(jax.vmap(one))(jnp.asarray(P), keys)), "jit+vmap"
+        except Exception as e:
+            if form.startswith("flat") and type(e).__name__ == "ConcretizationTypeError":
+                ctx.violation("multicategorical-flat-form-raises-under-jit",
+                              {"form": form, "dims": list(dims), "error": f"{type(e).__name__}: {str(e)[:200]}"})
+            else:
+                _raises(ctx, "multicategorical", "jit-vmap", e, {"form": form, "dims": dims})
+        try:
+            one, _ = make(form, dims, min(s, 8192))
+            return jax.tree.map(np.asarray, jax.vmap(one)(jnp.asarray(P), keys)), "vmap"
+        except Exception as e:
+            _raises(ctx, "multicategorical", "vmap", e, {"form": form, "dims": dims})
+            return None, None
+
     B = ctx.n(4, 32)
     ki = 0
     for dims in MC_DIMS:
         for form in MC_FORMS:
-            if ctx.quick and form == "seq-logits+dims" and dims not in ((2, 3), (4, 1, 6)):
+            if not form.startswith(which):
+                continue
+            if ctx.quick and (dims in ((5,), (2, 2, 2, 2)) or (form == "seq-logits+dims" and dims != (4, 1, 6))):
                 continue
             P = np.stack([gen(dims, form, i) for i in range(B)])
             ki += 1
-            try:
-                one, support = make(form, dims, S)
-                out = jax.tree.map(np.asarray, eqx.filter_jit(jax.vmap(one))(jnp.asarray(P), jr.split(ctx.key(ki), B)))
-            except Exception as e:
-                _raises(ctx, "multicategorical", "jit-vmap", e, {"form": form, "dims": dims})
+            out, how = run_batched(form, dims, S, P, ctx.key(ki))
+            if out is None:
                 continue
             for b in range(B):
-                judge(form, dims, P[b], jax.tree.map(lambda v: v[b], out), support, "jit+vmap")
+                judge(form, dims, P[b], jax.tree.map(lambda v: v[b], out), support_of(dims), how)
             if ki % 3 == 0 or not ctx.quick:
                 try:
                     one, support = make(form, dims, 2048)
@@ -570,17 +592,16 @@ def u_multicategorical(ctx):
     # a component with more than 128 classes
     for dims in ([(3, 200)] if ctx.quick else [(3, 200), (129, 2), (2, 300)]):
         for form in ("flat-logits", "seq-probs"):
+            if not form.startswith(which):
+                continue
             Bw = 3
             P = np.stack([gen(dims, form, 0 if i == 0 else 5) for i in range(Bw)])
             ki += 1
-            try:
-                one, support = make(form, dims, 4096)
-                out = jax.tree.map(np.asarray, eqx.filter_jit(jax.vmap(one))(jnp.asarray(P), jr.split(ctx.key(ki), Bw)))
-            except Exception as e:
-                _raises(ctx, "multicategorical", "jit-vmap", e, {"form": form, "dims": dims})
+            out, how = run_batched(form, dims, 4096, P, ctx.key(ki))
+            if out is None:
                 continue
             for b in range(Bw):
-                judge(form, dims, P[b], jax.tree.map(lambda v: v[b], out), support, "jit+vmap", tag="-wide")
+                judge(form, dims, P[b], jax.tree.map(lambda v: v[b], out), support_of(dims), how, tag="-wide")
                 ctx.monitor("multicategorical_cases_above_128_classes")
     ctx.require("multicategorical_cases", 20)
     ctx.require("product_law_points", 100)
@@ -588,8 +609,382 @@ def u_multicategorical(ctx):
     ctx.require("multicategorical_cases_above_128_classes", 2)
 
 
-# @@PART3@@
+# --------------------------------------------------------------------------------------
+# continuous laws in one dimension
+# --------------------------------------------------------------------------------------
+
+Z_GRID, Z_FULL, M_GRID = 8.0, 7.0, 961
+R_MIN = 2000.0  # float32 ulps per standard deviation required before mass / KS / quadrature are judged
+
+
+def normal_geom(loc, sc):
+    """Quadrature nodes for Normal(loc, sc): y = x, uniform over +-8 sigma."""
+    from vlib.c15_helpers import EPS32, normal_logpdf64
+
+    loc, sc = float(loc), float(sc)
+    xg = loc + sc * np.linspace(-Z_GRID, Z_GRID, M_GRID)
+    return dict(xg=xg, h=float(xg[1] - xg[0]), yg=xg.astype(np.float32), jac=np.ones(M_GRID), to_x=lambda y: np.asarray(y, np.float64),
+                lo=None, hi=None, full=True, R=sc / (EPS32 * (abs(loc) + 3 * sc)),
+                lp_ref=lambda y: normal_logpdf64(y, loc, sc), ent_ref=0.5 * np.log(2 * np.pi * np.e * sc * sc),
+                slp_tol=lambda y: 1.0 * np.abs((np.asarray(y, np.float64) - loc) / sc) * EPS32 * np.maximum(np.abs(y), 1e-30) / sc)
+
+
+def squash_region(lo, hi):
+    """|x| <= X is where float32 resolves y = lo + (hi-lo)*s(x) from the bounds (>= 1600 ulps away)."""
+    from vlib.c15_helpers import logit64
+
+    lo, hi = float(lo), float(hi)
+    kappa = max(abs(lo), abs(hi)) / (hi - lo)
+    delta = 2e-4 * max(1.0, kappa)
+    return float(logit64(1 - delta)), kappa
+
+
+def squashed_geom(loc, sc, lo, hi):
+    """Nodes for a law on (lo, hi): harness's own change of variables y = lo + (hi-lo)*sigmoid(x), x uniform
+    over the part of loc +- 8 sc that float32 resolves. The weights dy/dx belong to this map, so the
+    quadrature is exact for any density on (lo, hi); only the integrand comes from the code under test."""
+    from vlib.c15_helpers import EPS32, logit64, sigmoid64
+
+    loc, sc, lo, hi = float(loc), float(sc), float(lo), float(hi)
+    w = hi - lo
+    X, kappa = squash_region(lo, hi)
+    a, b = max(loc - Z_GRID * sc, -X), min(loc + Z_GRID * sc, X)
+    if not a < b:  # the law lives entirely in the saturated region: a token grid around the centre of (lo, hi)
+        a, b = -1.0, 1.0
+    xg = np.linspace(a, b, M_GRID)
+    s = sigmoid64(xg)
+    full = (abs(loc) + Z_FULL * sc) <= X
+    s3 = sigmoid64(np.array([loc - 3 * sc, loc + 3 * sc]))
+    R = sc * float(np.min(s3 * (1 - s3))) / (EPS32 * max(kappa, 1.0))
+
+    def to_x(y):
+        return logit64((np.asarray(y, np.float64) - lo) / w)
+
+    def slp_tol(y):
+        u = (np.asarray(y, np.float64) - lo) / w
+        x = logit64(u)
+        with np.errstate(divide="ignore", invalid="ignore"):
+            t = 4 * EPS32 * (kappa + 1.0) / (u * (1 - u)) * (np.abs(x - loc) / (sc * sc) + 1.0)
+        return np.where((u > 0) & (u < 1), t, np.inf)
+    return dict(xg=xg, h=float(xg[1] - xg[0]), yg=(lo + w * s).astype(np.float32), jac=w * s * (1 - s), to_x=to_x, lo=lo, hi=hi,
+                full=bool(full), R=R, lp_ref=None, ent_ref=None, slp_tol=slp_tol, kappa=kappa)
+
+
+def judge_1d(ctx, cls, desc, g, o, entropy_error=None):
+    """C15 relations for a one-dimensional continuous law. o: real lp/pr on g['yg'], smp, ss, sl, lps, mode,
+    pr_mode, ent (None when the code declares entropy undefined)."""
+    from vlib.c15_helpers import ALPHA, EPS32, cumtrapz, ks_against_cdf, note_max, note_min, prob_exp_mismatch, trapz
+
+    resolved = g["R"] >= R_MIN
+    judged_global = resolved and g["full"]
+    lp, pr = np.asarray(o["lp"], np.float64), np.asarray(o["pr"], np.float64)
+    ok = True
+
+    def bad(key, extra):
+        nonlocal ok
+        ok = False
+        d = dict(desc)
+        d.update(extra)
+        ctx.violation(f"{cls}-{key}", d)
+
+    exc, i = prob_exp_mismatch(pr, lp)
+    ctx.monitor("prob_vs_exp_logprob_points", len(lp))
+    if exc > 0:
+        bad("prob-not-exp-logprob", {"y": float(g["yg"][i]), "prob": pr[i], "log_prob": lp[i]})
+    if g["lp_ref"] is not None:
+        ref = g["lp_ref"](np.asarray(g["yg"], np.float64))
+        tol = 2e-5 + 1e-5 * np.abs(ref)
+        err = np.abs(lp - ref)
+        err = np.where(np.isnan(err), np.inf, err)
+        note_max(ctx, "max_logprob_err_over_tol_continuous", np.max(err / tol))
+        ctx.monitor("logprob_vs_density_formula_points", len(lp))
+        if np.any(err > tol):
+            i = int(np.argmax(err - tol))
+            bad("logprob-vs-definition", {"y": float(g["yg"][i]), "got": lp[i], "want": ref[i]})
+    integrand = np.where(np.isfinite(pr), pr, 0.0) * g["jac"]
+    mass = trapz(integrand, g["h"])
+    F = cumtrapz(integrand, g["h"])
+    if judged_global:
+        ctx.monitor("quadrature_mass_checked")
+        note_max(ctx, "max_abs_quadrature_mass_error", abs(mass - 1))
+        if not abs(mass - 1) <= 1e-3:
+            bad("mass-not-one", {"integral_of_prob_over_support": mass, "R": g["R"]})
+    elif resolved:
+        ctx.monitor("partial_mass_checked")
+        if not mass <= 1 + 1e-3:
+            bad("mass-over-part-of-support-exceeds-one", {"integral": mass, "x_range": [g["xg"][0], g["xg"][-1]]})
+    # entropy
+    if o.get("ent") is not None:
+        ent = float(o["ent"])
+        sl = np.asarray(o["sl"], np.float64)
+        ctx.monitor("entropy_defined_cases")
+        if g["ent_ref"] is not None:
+            ctx.monitor("entropy_vs_formula")
+            if not abs(ent - g["ent_ref"]) <= 1e-5 * (1 + abs(g["ent_ref"])):
+                bad("entropy-vs-definition", {"entropy": ent, "want": g["ent_ref"]})
+        if judged_global:
+            with np.errstate(invalid="ignore"):
+                hq = -trapz(np.where(pr > 0, pr * lp, 0.0) * g["jac"], g["h"])
+            ctx.monitor("entropy_vs_quadrature")
+            note_max(ctx, "max_entropy_quadrature_err", abs(ent - hq))
+            if not abs(ent - hq) <= 2e-3 * (1 + abs(hq)):
+                bad("entropy-not-neg-expected-logprob", {"entropy": ent, "minus_integral_p_log_p": hq})
+        if np.all(np.isfinite(sl)):
+            mc, se = -float(np.mean(sl)), float(np.std(sl, ddof=1) / np.sqrt(len(sl)))
+            zs = (ent - mc) / max(se, 1e-12)
+            ctx.monitor("entropy_vs_monte_carlo")
+            note_max(ctx, "max_entropy_mc_sigma", abs(zs))
+            if not abs(ent - mc) <= 5.5 * se + 1e-4 * (1 + abs(ent)):
+                bad("entropy-not-monte-carlo-neg-logprob", {"entropy": ent, "mc": mc, "se": se, "sigmas": zs})
+    elif entropy_error is not None:
+        ctx.monitor("entropy_declared_undefined")
+    # mode
+    m = float(np.asarray(o["mode"]))
+    ctx.monitor("mode_checked")
+    ulp = 2 * EPS32 * (max(abs(g["lo"]), abs(g["hi"])) if g["lo"] is not None else 0.0)
+    if not np.isfinite(m) or (g["lo"] is not None and not (g["lo"] - ulp <= m <= g["hi"] + ulp)):
+        bad("mode-outside-support", {"mode_value": m})
+    elif g["lp_ref"] is not None and resolved:
+        pm = float(np.asarray(o["pr_mode"]))
+        if not pm >= np.nanmax(pr) * (1 - 1e-4):
+            bad("mode-not-most-probable", {"mode_value": m, "prob_at_mode": pm, "max_prob_on_grid": float(np.nanmax(pr))})
+    # samples
+    for name, smp in (("sample", o["smp"]), ("sample-and-log-prob", o["ss"])):
+        smp = np.asarray(smp, np.float64)
+        ctx.monitor("samples_support_checked", len(smp))
+        if not np.all(np.isfinite(smp)):
+            bad(f"{name}-not-finite", {"count": int(np.sum(~np.isfinite(smp)))})
+            continue
+        if g["lo"] is not None:
+            outside = (smp < g["lo"] - ulp) | (smp > g["hi"] + ulp)
+            if (smp < g["lo"]).any() or (smp > g["hi"]).any():
+                ctx.notes["samples_beyond_bound_within_2ulp"] = ctx.notes.get("samples_beyond_bound_within_2ulp", 0) + int(
+                    np.sum(((smp < g["lo"]) | (smp > g["hi"])) & ~outside))
+            if outside.any():
+                i = int(np.argmax(outside))
+                bad(f"{name}-outside-support", {"count": int(outside.sum()), "of": len(smp), "example": smp[i]})
+                continue
+        if judged_global and abs(mass - 1) < 0.5:
+            u = np.interp(g["to_x"](smp), g["xg"], F / mass, left=0.0, right=1.0)
+            dks, pval = ks_against_cdf(u)
+            ctx.monitor("ks_tests")
+            note_min(ctx, "min_ks_pvalue", pval)
+            if pval < ALPHA:
+                bad(f"{name}s-do-not-follow-density", {"ks_D": dks, "p": pval, "draws": len(smp),
+                                                       "sample_mean": float(smp.mean()), "sample_std": float(smp.std())})
+    # sample_and_log_prob returns log_prob(returned sample)
+    ss, sl, lps = (np.asarray(o[k], np.float64) for k in ("ss", "sl", "lps"))
+    tol = 1e-4 + 1e-5 * np.abs(sl) + g["slp_tol"](ss)
+    deciding = tol < 0.05
+    ctx.monitor("sample_and_log_prob_pairs", int(deciding.sum()))
+    err = np.abs(sl - lps)
+    err = np.where(np.isnan(err), np.inf, err)
+    if deciding.any():
+        note_max(ctx, "max_slp_err_over_tol", np.max(err[deciding] / tol[deciding]))
+    if np.any(deciding & (err > tol)):
+        i = int(np.argmax(np.where(deciding, err - tol, -np.inf)))
+        bad("sample-and-log-prob-inconsistent", {"sample": ss[i], "returned_log_prob": sl[i],
+                                                 "log_prob_of_returned_sample": lps[i], "tol": tol[i]})
+    return ok
+
+
+def gen_normal_params(rng, i):
+    sc = 10.0 ** rng.uniform(-2, 1)
+    loc = [0.0, rng.normal(0, 1), rng.normal(0, 10), rng.uniform(-100, 100)][i % 4]
+    return np.float32(loc), np.float32(sc)
+
+
+def u_normal(ctx):
+    import equinox as eqx
+    import jax
+    import jax.numpy as jnp
+    from jax import random as jr
+    from lerax.distribution import Normal
+    from vlib.c15_helpers import normal_logpdf64
+
+    S, K = ctx.n(S_QUICK, S_THOROUGH), 4096
+
+    def make(s):
+        def one(loc, sc, yg, key):
+            d = Normal(loc, sc)
+            ks = jr.split(key, s + K)
+            ss, sl = jax.vmap(d.sample_and_log_prob)(ks[s:])
+            m = d.mode()
+            return dict(lp=jax.vmap(d.log_prob)(yg), pr=jax.vmap(d.prob)(yg), ent=d.entropy(), mode=m, pr_mode=d.prob(m),
+                        smp=jax.vmap(d.sample)(ks[:s]), ss=ss, sl=sl, lps=jax.vmap(d.log_prob)(ss))
+        return one
+
+    def judge(loc, sc, g, o, mode):
+        desc = {"class": "Normal", "loc": float(loc), "scale": float(sc), "mode": mode, "R": g["R"]}
+        nt = g["R"] >= R_MIN
+        ctx.case(desc, nontrivial=nt, cls=f"Normal/{'resolved' if nt else 'coarse'}/{mode}")
+        ctx.monitor("normal_cases")
+        judge_1d(ctx, "normal", desc, g, o)
+
+    B = 16
+    f = eqx.filter_jit(jax.vmap(make(S)))
+    for rep in range(ctx.n(3, 30)):
+        prm = [gen_normal_params(ctx.rng, i) for i in range(B)]
+        geo = [normal_geom(l, s) for l, s in prm]
+        try:
+            out = jax.tree.map(np.asarray, f(jnp.asarray([p[0] for p in prm]), jnp.asarray([p[1] for p in prm]),
+                                             jnp.asarray(np.stack([g["yg"] for g in geo])), jr.split(ctx.key(rep), B)))
+        except Exception as e:
+            _raises(ctx, "normal", "jit-vmap", e, {"params": prm})
+            continue
+        for b in range(B):
+            judge(*prm[b], geo[b], {k: v[b] for k, v in out.items()}, "jit+vmap")
+    for b in range(ctx.n(3, 12)):
+        loc, sc = gen_normal_params(ctx.rng, b)
+        g = normal_geom(loc, sc)
+        try:
+            # Python floats are valid parameters too (ArrayLike)
+            args = (float(loc), float(sc)) if b % 2 else (jnp.asarray(loc), jnp.asarray(sc))
+            o = jax.tree.map(np.asarray, make(4096)(*args, jnp.asarray(g["yg"]), ctx.key(1000 + b)))
+        except Exception as e:
+            _raises(ctx, "normal", "eager", e, {"loc": loc, "scale": sc})
+            continue
+        judge(loc, sc, g, o, "eager")
+    # vector form: independent elements, everything element-wise
+    for b in range(ctx.n(3, 12)):
+        d = int(ctx.rng.integers(2, 6))
+        prm = [gen_normal_params(ctx.rng, i + b) for i in range(d)]
+        loc, sc = np.array([p[0] for p in prm]), np.array([p[1] for p in prm])
+        y = (loc + sc * ctx.rng.normal(0, 2, size=d)).astype(np.float32)
+        desc = {"class": "Normal", "form": "vector", "loc": loc, "scale": sc, "y": y}
+        ctx.case(desc, nontrivial=True, cls="Normal/vector/eager")
+        try:
+            dist = Normal(jnp.asarray(loc), jnp.asarray(sc))
+            lp, ent = np.asarray(dist.log_prob(jnp.asarray(y)), np.float64), np.asarray(dist.entropy(), np.float64)
+            smp, (ss, sl) = np.asarray(dist.sample(ctx.key(2000 + b))), jax.tree.map(np.asarray, dist.sample_and_log_prob(ctx.key(3000 + b)))
+            lps = np.asarray(dist.log_prob(jnp.asarray(ss)), np.float64)
+        except Exception as e:
+            _raises(ctx, "normal", "vector-form", e, desc)
+            continue
+        ref = normal_logpdf64(y, loc.astype(np.float64), sc.astype(np.float64))
+        ctx.monitor("normal_vector_form_cases")
+        if lp.shape != (d,) or smp.shape != (d,) or ent.shape != (d,) or not np.all(np.abs(lp - ref) <= 2e-5 + 1e-5 * np.abs(ref)):
+            ctx.violation("normal-vector-form-not-elementwise", {"case": desc, "got": lp, "want": ref, "sample_shape": smp.shape})
+        if not np.all(np.abs(ent - 0.5 * np.log(2 * np.pi * np.e * sc.astype(np.float64) ** 2)) <= 2e-5):
+            ctx.violation("normal-entropy-vs-definition", {"case": desc, "got": ent})
+        if not np.all(np.abs(np.asarray(sl, np.float64) - lps) <= 1e-4 + 5e-3 * np.abs(lps)):
+            ctx.violation("normal-sample-and-log-prob-inconsistent", {"case": desc, "returned": sl, "log_prob_of_sample": lps})
+    ctx.require("normal_cases", 20)
+    ctx.require("quadrature_mass_checked", 10)
+    ctx.require("ks_tests", 10)
+    ctx.require("entropy_vs_monte_carlo", 10)
+    ctx.require("sample_and_log_prob_pairs", 1000)
+
+
+BOUNDS_FIXED = [(-1.0, 1.0), (0.0, 1.0), (-2.0, 2.0), (-0.4, 0.4), (0.0, 255.0)]
+
+
+def gen_bounds(rng, i):
+    if i % 3 == 0:
+        lo, hi = BOUNDS_FIXED[(i // 3) % len(BOUNDS_FIXED)]
+    else:
+        w = 10.0 ** rng.uniform(-2, 2)
+        c = w * float(rng.choice([0.0, 0.5, 3.0, 20.0])) * float(rng.choice([-1.0, 1.0])) * rng.uniform(0.5, 1.0)
+        lo, hi = c - w / 2, c + w / 2
+    lo, hi = np.float32(lo), np.float32(hi)
+    assert lo < hi
+    return lo, hi
+
+
+def gen_squashed_params(rng, i, lo, hi):
+    """Two thirds 'full' (base normal's +-7 sigma inside the float32-resolved region), one third anything
+    up to scale 10 / |loc| 20 (saturating: judged on local relations only)."""
+    X, _ = squash_region(lo, hi)
+    if i % 3 == 2:
+        return np.float32(rng.uniform(-20, 20) if i % 2 else rng.normal(0, 2)), np.float32(10.0 ** rng.uniform(-2, 1))
+    sc = 10.0 ** rng.uniform(-2, np.log10(0.95 * X / Z_FULL))
+    loc = rng.uniform(-1, 1) * (0.98 * X - Z_FULL * sc) * float(rng.choice([0.3, 1.0]))
+    return np.float32(loc), np.float32(sc)
+
+
+def u_squashednormal(ctx):
+    import equinox as eqx
+    import jax
+    import jax.numpy as jnp
+    from jax import random as jr
+    from lerax.distribution import SquashedNormal
+
+    S, K = ctx.n(S_QUICK, S_THOROUGH), 4096
+    ent_state = {}
+
+    def make(s, default_bounds=False):
+        def one(loc, sc, hi, lo, yg, key):
+            d = SquashedNormal(loc, sc) if default_bounds else SquashedNormal(loc, sc, high=hi, low=lo)
+            ks = jr.split(key, s + K)
+            ss, sl = jax.vmap(d.sample_and_log_prob)(ks[s:])
+            out = dict(lp=jax.vmap(d.log_prob)(yg), pr=jax.vmap(d.prob)(yg), mode=d.mode(),
+                       smp=jax.vmap(d.sample)(ks[:s]), ss=ss, sl=sl, lps=jax.vmap(d.log_prob)(ss))
+            try:
+                out["ent"] = d.entropy()
+                ent_state["err"] = None
+            except NotImplementedError as e:  # the code declares the entropy undefined
+                ent_state["err"] = str(e)[:120]
+            except Exception as e:
+                ent_state["err"] = None
+                ent_state["other"] = f"{type(e).__name__}: {str(e)[:200]}"
+            return out
+        return one
+
+    def judge(loc, sc, lo, hi, g, o, mode, tag=""):
+        desc = {"class": "SquashedNormal", "loc": float(loc), "scale": float(sc), "low": float(lo), "high": float(hi),
+                "mode": mode, "R": g["R"], "full": g["full"]}
+        nt = g["R"] >= R_MIN and g["full"]
+        kind = "resolved" if nt else ("saturating" if not g["full"] else "coarse")
+        ctx.case(desc, nontrivial=nt, cls=f"SquashedNormal/{kind}{tag}/{mode}")
+        ctx.monitor("squashednormal_cases")
+        if "other" in ent_state:
+            ctx.violation("squashednormal-entropy-raises", {"case": desc, "error": ent_state.pop("other")})
+        judge_1d(ctx, "squashednormal", desc, g, o, entropy_error=ent_state.get("err"))
+
+    B = 16
+    f = eqx.filter_jit(jax.vmap(make(S)))
+    for rep in range(ctx.n(4, 40)):
+        bnd = [gen_bounds(ctx.rng, rep * B + i) for i in range(B)]
+        prm = [gen_squashed_params(ctx.rng, i, *bnd[i]) for i in range(B)]
+        geo = [squashed_geom(*prm[i], *bnd[i]) for i in range(B)]
+        try:
+            out = jax.tree.map(np.asarray, f(jnp.asarray([p[0] for p in prm]), jnp.asarray([p[1] for p in prm]),
+                                             jnp.asarray([b[1] for b in bnd]), jnp.asarray([b[0] for b in bnd]),
+                                             jnp.asarray(np.stack([g["yg"] for g in geo])), jr.split(ctx.key(rep), B)))
+        except Exception as e:
+            _raises(ctx, "squashednormal", "jit-vmap", e, {"params": prm, "bounds": bnd})
+            continue
+        for b in range(B):
+            judge(*prm[b], *bnd[b], geo[b], {k: v[b] for k, v in out.items()}, "jit+vmap")
+    for b in range(ctx.n(4, 16)):
+        default = b % 2 == 1
+        lo, hi = (np.float32(-1), np.float32(1)) if default else gen_bounds(ctx.rng, b)
+        loc, sc = gen_squashed_params(ctx.rng, 0, lo, hi)
+        g = squashed_geom(loc, sc, lo, hi)
+        try:
+            o = jax.tree.map(np.asarray, make(4096, default)(jnp.asarray(loc), jnp.asarray(sc), jnp.asarray(hi), jnp.asarray(lo),
+                                                             jnp.asarray(g["yg"]), ctx.key(1000 + b)))
+        except Exception as e:
+            _raises(ctx, "squashednormal", "eager", e, {"loc": loc, "scale": sc, "low": lo, "high": hi, "default_bounds": default})
+            continue
+        judge(loc, sc, lo, hi, g, o, "eager", tag="-default-bounds" if default else "")
+    try:  # observation only (the design treats Python-float bounds as outside the property)
+        SquashedNormal(0.0, 1.0, high=2.0, low=-2.0)
+        ctx.notes["python_float_bounds"] = "accepted"
+    except Exception as e:
+        ctx.notes["python_float_bounds"] = f"rejected: {type(e).__name__}: {str(e)[:80]}"
+    ctx.notes["entropy"] = ent_state.get("err") or "defined"
+    ctx.require("squashednormal_cases", 20)
+    ctx.require("quadrature_mass_checked", 10)
+    ctx.require("ks_tests", 10)
+    ctx.require("sample_and_log_prob_pairs", 1000)
+    if ent_state.get("err") is None:
+        ctx.require("entropy_vs_monte_carlo", 5)
+
+
+# @@PART4@@
 
 
 def run_unit(name, ctx):
-    {"categorical": u_categorical, "bernoulli": u_bernoulli, "multicategorical": u_multicategorical}[name](ctx)
+    {"normal": u_normal, "squashednormal": u_squashednormal, "categorical": u_categorical, "bernoulli": u_bernoulli, "multicat-flat": lambda c: u_multicategorical(c, "flat"),
+     "multicat-seq": lambda c: u_multicategorical(c, "seq")}[name](ctx)
